@@ -2,7 +2,7 @@
 #include "w2c2_base.h"
 #include "wasm_int.h"
 #include "trapstub.h"
-#include "/verif/.work_wt/C16-12036/memrec/memrec.h"
+#include "/verif/.work_wt/C16-16551/memrec/memrec.h"
 #include "c16atm.c"
 #include "wasm_int.h"
 #include "libm_markers.h"
